@@ -309,15 +309,16 @@ PROPS["C16"] = {
 }
 
 PROPS["C17"] = {
-    "level_text": "Theorems (Props/C17.v): (metatheory, by induction over every interleaving of any number of threads) code whose every read of the shared fields happens inside a Lock..Unlock or RLock..RUnlock section of the one (RW)mutex, every write inside a Lock..Unlock section, and whose paths never return with a lock held, has no data race and never a thread inside a write section while another is inside any critical section (a writer excludes everybody, readers exclude the writer); (soundness of the static check) `disciplined s` implies this for every path of the statement, loops unrolled arbitrarily and early returns included; (the code) the lock/access skeleton of every method of xsensemulator.Emulator, REGENERATED from emulator.go on every run, is disciplined, hence any plan of emulator calls from any number of goroutines is race free and a concurrent encode reads the configuration inside one critical section, i.e. whole. Dynamic side: the real emulator under Go's race detector with a receive loop and 2-4 hammering goroutines, and a mixture detector on the identifiers concurrent encodes return.",
+    "level_text": "Theorems (Props/C17.v): (metatheory, by induction over every interleaving of any number of threads) code whose every read of the shared fields happens inside a Lock..Unlock or RLock..RUnlock section of the one (RW)mutex, every write inside a Lock..Unlock section, and whose paths never return with a lock held, has no data race and never a thread inside a write section while another is inside any critical section (a writer excludes everybody, readers exclude the writer); (soundness of the static check) `disciplined s` implies this for every path of the statement, loops unrolled arbitrarily and early returns included; (the code) the lock/access skeleton of every method of xsensemulator.Emulator, REGENERATED from emulator.go on every run, is disciplined, hence any plan of emulator calls from any number of goroutines is race free and a concurrent encode reads the configuration inside one critical section, i.e. whole; and what the receive loop stores in its critical section (the generated OutputConfiguration.Unmarshal applied to the previous configuration, any contents/length/capacity) is the decoding of the command's payload alone - no component of the previous configuration survives. Dynamic side: the real emulator under Go's race detector with a receive loop and 2-4 hammering goroutines, and a mixture detector on the identifiers concurrent encodes return.",
     "level_note": "Go's memory model (DRF-SC) is assumed, not proved: race-free programs behave as some sequentially consistent interleaving. The skeleton abstracts each method to lock/unlock/read/write/call/return actions on the receiver's fields; aliasing through the slice passed to SetOutputConguration (the caller keeps a reference) is outside the model and stated as an assumption. The race detector only sees the schedules that happen.",
     "technique": "Rocq proof (lock-discipline metatheory by induction over interleavings + reflective check of a skeleton translated from the Go AST on every run) + race-detector / mixture-detector runs of the real emulator",
+    "tie_files": ["Tie/ConfAgree.v"],
     "props_file": "Props/C17.v",
     "eval_modules": ["Run.EvalConc"],
     "kinds": {"skel": {"type": "case_skel", "chk": "chk_skel", "sig": "sig_skel", "scope": "Z_scope"},
               "mix": {"type": "case_mix", "chk": "chk_mix", "sig": "sig_mix", "scope": "Z_scope"}},
     "race_prop": "C17race",
-    "rule": "skel: every exported method of *Emulator found by reflection must be present in the generated skeleton and disciplined. mix: a client alternates two configurations holding the probed type at opposite ends with different precisions (300 rounds quick, 3000 thorough; GOMAXPROCS 2,4,16; synchronous and buffered links) while 1-4 goroutines encode that type; each distinct identifier they saw is a case and must be one of the two installed. race: the same with Transmit, SetSendMode, LastMessageIdentifier hammered too, under -race; any report is a failing input. non-trivial = all; distinct = distinct terms",
+    "rule": "skel: every exported method of *Emulator found by reflection must be present in the generated skeleton and disciplined. mix: a client alternates two configurations holding the probed type at opposite ends with different precisions (300 rounds quick, 3000 thorough; GOMAXPROCS 2,4,16; synchronous and buffered links) (the slot it occupies in one configuration holds a type with a non-default coordinate system in the other) while 1-4 goroutines encode that type; each distinct packet header they got (raw bytes) is a case and must be one of the two installed. race: the same with Transmit, SetSendMode, LastMessageIdentifier hammered too, under -race; any report is a failing input. non-trivial = all; distinct = distinct terms",
     "trusted": ["Go memory model: DRF-SC", "go/xlate skeleton extraction (field accesses by selector on the receiver, Lock/Unlock/RLock/RUnlock/defer (R)Unlock on e.mutex, e.port.Write as a port action, calls to own methods inlined as Call)", "Go's race detector (dynamic side only)"],
     "assumptions": ["callers do not keep mutating the slice they handed to SetOutputConguration", "one mutex field; accesses to port/w/sc are confined to the receive loop or are themselves synchronised (io.Writer port)"],
 }
